@@ -292,6 +292,13 @@ def rule_ms(ctx: Ctx):
                     r2.ob(_key0(idx), lambda e=e, name=name: _f(
                         "MS-2", "%s{index}" % name, mm, e.node,
                         "%s writes %s: a write that is not at index key[0] of the operation's own key changes what another key reads" % (name, e.brief()), trace_of(p)))
+                elif e.k == "mutate" and _arr(e.base) is not None and e.method in ("pop", "clear", "remove", "insert") + (() if name == "add_key" else ("append", "extend")):
+                    # the three arrays only ever grow, and only in add_key: a slot that is dropped or shifted is another key's slot -- a key that is
+                    # alive and not written yet (NOTSET) reads as cleared (the filler 0) after its slot was popped and grown back
+                    r2.ob(False, lambda e=e, name=name: _f(
+                        "MS-2", "%s{resize}" % name, mm, e.node,
+                        "%s %ss the %s array (%s): the slots of the other keys move or vanish -- a key that was added and not written yet comes back, "
+                        "when the array grows again, as a cleared slot holding the filler" % (name, e.method, _arr(e.base), e.brief()), trace_of(p)))
     # no other public method writes the arrays (private helpers are followed from their callers)
     cls = [n for n in m.tree.body if isinstance(n, ast.ClassDef) and n.name == "MemoryStore"]
     if not cls:
